@@ -1444,8 +1444,43 @@ fn gen_mb(rng: &mut Rng, permille: u64, variant: u64) -> MarkSpec {
             }
         }
     }
+    // bytes of the distinct anchor + device / variation-index tables of the heaviest mark class:
+    // split_mark_to_base only cuts BETWEEN classes, a class above 64 KiB cannot be made to fit
+    let dev_size = |d: &Dev| -> usize {
+        match d {
+            Dev::Device { deltas, .. } => {
+                let bits = if deltas.iter().all(|v| (-2..=1).contains(v)) {
+                    2
+                } else if deltas.iter().all(|v| (-8..=7).contains(v)) {
+                    4
+                } else {
+                    8
+                };
+                6 + 2 * ((deltas.len() * bits + 15) / 16)
+            }
+            Dev::None => 0,
+            _ => 6,
+        }
+    };
+    let maxclass = (0..c)
+        .map(|k| {
+            let mut anchors: BTreeMap<String, usize> = BTreeMap::new();
+            let mut devices: BTreeMap<String, usize> = BTreeMap::new();
+            for a in m.bases.values().filter_map(|row| row.get(&k)) {
+                let has_dev = a.xd != Dev::None || a.yd != Dev::None;
+                anchors.insert(format!("{a:?}"), if has_dev { 10 } else if a.pt.is_some() { 8 } else { 6 });
+                for d in [&a.xd, &a.yd] {
+                    if *d != Dev::None {
+                        devices.insert(d.show(), dev_size(d));
+                    }
+                }
+            }
+            anchors.values().sum::<usize>() + devices.values().sum::<usize>()
+        })
+        .max()
+        .unwrap_or(0);
     m.desc = format!(
-        "mb{{v{variant} classes={c} marks={nm}:{lm} bases={b}:{lb} fill={fill}% anchors={n_anchor} est={}}}",
+        "mb{{v{variant} classes={c} marks={nm}:{lm} bases={b}:{lb} fill={fill}% anchors={n_anchor} est={} maxclass={maxclass}}}",
         12 + 2 * nm + 2 * b + 10 * nm + 2 + 2 * b * c + 6 * n_anchor
     );
     m
@@ -2370,6 +2405,30 @@ fn run_scenario(s: &mut Session, rng: &mut Rng, kind: &str, tag: &str, mut specs
             b
         }
         Ok(Err(e)) => {
+            if std::env::var("C16_E2E_VERBOSE").is_ok() {
+                // which offset overflows (diagnostic only)
+                let mut g = write_fonts::verif_hooks::VGraph::from_table(&gpos);
+                let ok = g.pack_objects();
+                let objs: BTreeMap<u64, write_fonts::verif_hooks::ObjView> = g.objects().into_iter().map(|o| (o.id, o)).collect();
+                eprintln!("pack_objects={ok} objects={}", objs.len());
+                for (p, c, dist, w) in g.find_overflows() {
+                    let (po, co) = (&objs[&p], &objs[&c]);
+                    eprintln!(
+                        "overflow: parent {} ({} bytes, {} links, pos {} space {}) -> child {} ({} bytes, pos {} space {}, {} parents) distance {dist} width {w}",
+                        po.type_name, po.bytes.len(), po.links.len(), po.position, po.space, co.type_name, co.bytes.len(), co.position, co.space, co.parents.len()
+                    );
+                    let kids: usize = po.links.iter().map(|l| objs[&l.2].bytes.len()).sum();
+                    let mut distinct: Vec<u64> = po.links.iter().map(|l| l.2).collect();
+                    distinct.sort();
+                    distinct.dedup();
+                    let dk: usize = distinct.iter().map(|id| objs[id].bytes.len()).sum();
+                    let shared = distinct.iter().filter(|id| objs[id].parents.len() > 1).count();
+                    eprintln!("  parent children bytes {kids} (distinct {dk}, {} distinct objects, {shared} with >1 parent)", distinct.len());
+                }
+                for o in objs.values().filter(|o| o.type_name.contains("Lookup") || o.type_name.contains("GPOS")) {
+                    eprintln!("  {} id {} bytes {} links {} pos {} space {}", o.type_name, o.id, o.bytes.len(), o.links.len(), o.position, o.space);
+                }
+            }
             s.count(&format!("e2e:compile-failed:{kind}"));
             rep.check(s, "gpos-compiles", false, input, || clip(format!("dump_table error: {e}")));
             return;
@@ -2658,6 +2717,12 @@ pub fn run(cfg: &Config, s: &mut Session, rng: &mut Rng) {
             let p = j(rng, p);
             one(s, rng, "multi-dev", p, v);
         }
+    }
+    // regression inputs of repaired defects, replayed with their recorded generator state:
+    // /repo 2b4b586 (ppf2 size estimate at a split point with shared device tables)
+    for (kind, p, v, state) in [("pairdev", 3626u64, 1u64, 0xd287079c8ac06fe5u64)] {
+        let mut r2 = Rng(state);
+        one(s, &mut r2, kind, p, v);
     }
     if std::env::var("C16_E2E_VERBOSE").is_ok() {
         eprintln!("e2e total {:.1}s", t0.elapsed().as_secs_f64());
